@@ -222,7 +222,7 @@ the `As` loop) or a descriptor to register -/
 structure Item where
   pre : Option Err := none
   d : Desc
-deriving Repr, Inhabited
+deriving DecidableEq, Repr, Inhabited
 
 /-- the common shape of the three loops (collection.go:581-609, 629-663, 673-714): check, register,
 wrap the failure; stops at the first failure and returns the state reached -/
@@ -401,6 +401,18 @@ def Heap.build (h : Heap) (r : CollRef) : Heap × Prov :=
 def Heap.provFind (h : Heap) (p : Prov) (k : Ident) : Option Desc := (h.smaps p.sref).val k
 /-- `provider.findGroupDescriptors` (provider.go:316-323) -/
 def Heap.provGroup (h : Heap) (p : Prov) (g : GKey) : List Desc := if g.2 = 0 then [] else (h.gmaps p.gref).val g
+
+/-- any sequence of operations on the collection, each run in place -/
+def Heap.runAll (h : Heap) (r : CollRef) : List (Coll → Coll × Option Err) → Heap × CollRef
+  | [] => (h, r)
+  | f :: rest =>
+    let (h', r', _) := h.modify r f
+    h'.runAll r' rest
+
+/-- the same operations on the value -/
+def applyAll (c : Coll) : List (Coll → Coll × Option Err) → Coll
+  | [] => c
+  | f :: rest => applyAll (f c).1 rest
 
 /-- constructors Build runs: singletons, and scoped initializers of the root scope; an instance
 registration has no constructor -/
